@@ -129,6 +129,7 @@ package agessh
 //@   modifies nothing
 
 //@ func (*RSAIdentity).Recipient(i) (r)
+//@   requires#wf i.k != nil                                                                                       [C14]
 //@   ensures#key r != nil && r.sshKey == i.sshKey                                                                  [C01]
 //@   ensures#frame i.k == old(i.k) && i.sshKey == old(i.sshKey)                                                    [C20]
 //@   fresh r
@@ -142,7 +143,7 @@ package agessh
 
 //@ func ParseIdentity(pemBytes) (id, err)
 //@   ensures#nonnil err == nil ==> id != nil                                                                        [C14 C18]
-//@   ensures#missing typeis(err, "*golang.org/x/crypto/ssh.PassphraseMissingError") ==> id(err) != 0               [C14]
+//@   assumes#missing typeis(err, "*golang.org/x/crypto/ssh.PassphraseMissingError") ==> id(err) != 0
 
 //@ func NewEncryptedSSHIdentity(pubKey, pemBytes, passphrase) (i, err)
 //@   requires pubKey != nil
